@@ -56,6 +56,21 @@ NEST_IN = [Opt('int', b'x', 0, 0), Opt('func', b'include', func='include')]
 def generate(rng, tier):
     r = rng.fork('C16')
     n = 0
+    # a directory added to the search path THROUGH one section instance is private to it: the root and its siblings
+    # resolve names as they do without it (library only: the model keeps one list per context)
+    for order in (0, 1):
+        lines = gen.prelude(SCHEMA, 0) + ['file %s file %s' % (hx(b'shared/s.conf'), hx(b'a = 1\n')), 'file %s file %s' % (hx(b'priv/only.conf'), hx(b'a = 42\n'))]
+        if order:
+            lines.append('searchpath 0 ' + hx(b'shared'))
+        lines += ['parse_buf 0 ' + hx(b't a { }\nt b { }\n')]
+        if not order:
+            lines.append('searchpath 0 ' + hx(b'shared'))
+        k = len(lines)
+        lines += ['searchpath 0 %s %s' % (hx(b'priv'), hx(b't=a')), 'lookup 0 %s %s' % (hx(b'only.conf'), hx(b't=a')), 'lookup 0 ' + hx(b'only.conf'),
+                  'lookup 0 %s %s' % (hx(b'only.conf'), hx(b't=b')), 'parse_buf 0 ' + hx(b'include("only.conf")\n'), 'lookup 0 ' + hx(b's.conf')]
+        n += 1
+        yield Scn('secpath%d' % n, lines, {'class': 'section-search-path', 'group': 'sp%d' % n, 'role': 'only', 'big': True, 'k': k,
+                                          'want': ['rc=0 ', 'res=707269762f6f6e6c792e636f6e66 ', 'res=- ', 'res=- ', 'rc=1 ', 'res=7368617265642f732e636f6e66 '], 'impl_only': True})
     # a second context is parsed into from a callback while the first is inside an included file (two levels too):
     # the first context ends up as it does alone
     for inner in (b'x = 5\n', b'x = = 5\n', b'include("in2.conf")\n', b''):
@@ -150,7 +165,10 @@ def nontrivial(scn, il):
 
 
 def oracle(scn, il):
-    if not il or 'status=exit:0' not in il[-1] or 'san=-' not in il[-1]:
+    # (a directory added through a section instance is never released — sections do not own their list, cfg_free_value()
+    #  detaches it: a leak outside this property, reported by LeakSanitizer at exit; recorded in DESIGN.md 14.4)
+    leak_only = scn.meta['class'] == 'section-search-path' and il and 'san=leak@cfg_add_searchpath' in il[-1]
+    if not leak_only and (not il or 'status=exit:0' not in il[-1] or 'san=-' not in il[-1]):
         tr = il[-1] if il else 'no result'
         m = re.search(r'san=(\S+)', tr)
         return [('sanitizer:' + (m.group(1) if m else 'crash'), '%s: %s' % (scn.id, tr))]
@@ -162,6 +180,13 @@ def oracle(scn, il):
         if marks != 1:
             return [('print-callback-spread', '%s: a print callback installed by path shows %d times in the print-out (once expected: first instance only):\n%s' % (
                 scn.id, marks, text.decode('latin-1')[:900]))]
+    if scn.meta['class'] == 'section-search-path':
+        k = scn.meta['k']
+        for j, w in enumerate(scn.meta['want']):
+            if k + j >= len(il) - 1 or w not in il[k + j] + ' ':
+                return [('section-search-path-leaks', '%s: a directory added through the section instance t=a: `%s` answers %s (expected %s)' % (
+                    scn.id, scn.lines[k + j][:60], il[k + j][:100] if k + j < len(il) else '-', w))]
+        return []
     if scn.meta['class'] == 'nested-in-include':
         k = scn.meta['k']
         for j, w in enumerate(scn.meta['want']):
